@@ -36,3 +36,53 @@ package selector
 //@   ensures @len len(result) == len(input) && fresh(result)
 //@   ensures @domain ival(den(end)) <= len(input) && ival(den(start)) <= len(input)
 //@   ensures @slice forall k int :: 0 <= k && k < len(input) ==> den(result[k]) == ((ival(den(start)) <= k && k < ival(den(end))) ? den(input[k]) : f0)
+
+// ---- multiplexer.go
+
+// Sequential decoder (Decoder): one-hot at sel, and sel >= n is unsatisfiable.
+// Key decoder (KeyDecoder): zero wherever the key differs from the query; one on the matching key when
+// no other key matches (the documented precondition of Map).
+//@ contract generateDecoder
+//@   props C14
+//@   assigns api, keys
+//@   requires api != nil && (sequential ==> 0 <= n && n < fieldP())
+//@   ensures @len len(result) == (sequential ? n : len(keys)) && fresh(result) && wires(result)
+//@   ensures @seq-domain sequential ==> ival(den(sel)) < n
+//@   ensures @seq-onehot sequential ==> forall k int :: 0 <= k && k < n ==> den(result[k]) == (k == ival(den(sel)) ? f1 : f0)
+//@   ensures @key-zero !sequential ==> forall k int :: 0 <= k && k < len(keys) && den(keys[k]) != den(sel) ==> den(result[k]) == f0
+//@   ensures @key-one !sequential ==> forall j int :: 0 <= j && j < len(keys) && (forall m int :: 0 <= m && m < len(keys) && m != j ==> den(keys[m]) != den(sel)) ==> den(result[j]) == f1
+//@   loop 1 invariant @seq-zero sequential ==> forall k int :: 0 <= k && k < i && k != ival(den(sel)) ==> den(indicators[k]) == f0
+//@   loop 1 invariant @seq-sum sequential ==> den(indicatorsSum) == (ival(den(sel)) < i ? den(indicators[ival(den(sel))]) : f0)
+//@   loop 1 invariant @key-zero !sequential ==> forall k int :: 0 <= k && k < i && den(keys[k]) != den(sel) ==> den(indicators[k]) == f0
+//@   loop 1 invariant @key-sum !sequential ==> forall j int :: 0 <= j && j < len(keys) && (forall m int :: 0 <= m && m < len(keys) && m != j ==> den(keys[m]) != den(sel)) ==> den(indicatorsSum) == (j < i ? den(indicators[j]) : f0)
+
+//@ contract Decoder
+//@   props C14
+//@   assigns api
+//@   requires api != nil && 0 <= n && n < fieldP()
+//@   ensures @len len(result) == n
+//@   ensures @domain ival(den(sel)) < n
+//@   ensures @onehot forall k int :: 0 <= k && k < n ==> den(result[k]) == (k == ival(den(sel)) ? f1 : f0)
+
+//@ contract KeyDecoder
+//@   props C14
+//@   assigns api, keys
+//@   requires api != nil
+//@   ensures @len len(result) == len(keys)
+//@   ensures @zero forall k int :: 0 <= k && k < len(keys) && den(keys[k]) != den(queryKey) ==> den(result[k]) == f0
+//@   ensures @one forall j int :: 0 <= j && j < len(keys) && (forall m int :: 0 <= m && m < len(keys) && m != j ==> den(keys[m]) != den(queryKey)) ==> den(result[j]) == f1
+
+// dotProduct against a vector that is zero off one position
+//@ contract dotProduct
+//@   props C14
+//@   assigns api
+//@   requires api != nil && len(b) >= len(a)
+//@   ensures @single forall j int :: 0 <= j && j < len(a) && (forall m int :: 0 <= m && m < len(a) && m != j ==> den(b[m]) == f0) ==> den(result) == fmul(den(a[j]), den(b[j]))
+//@   loop 1 invariant @acc forall j int :: 0 <= j && j < len(a) && (forall m int :: 0 <= m && m < len(a) && m != j ==> den(b[m]) == f0) ==> den(out) == (j < i ? fmul(den(a[j]), den(b[j])) : f0)
+
+// Map returns the value stored under the (unique) key equal to the query
+//@ contract Map
+//@   props C14
+//@   assigns api, keys
+//@   requires api != nil
+//@   ensures @lookup forall j int :: 0 <= j && j < len(keys) && den(keys[j]) == den(queryKey) && (forall m int :: 0 <= m && m < len(keys) && m != j ==> den(keys[m]) != den(queryKey)) ==> den(result) == den(values[j])
